@@ -345,3 +345,447 @@ Arguments KCatch {raw V} items.
 Arguments DField {raw V} v.
 Arguments DRaw {raw V} r.
 Arguments DTag {raw V} t.
+
+(* ======================================================================================
+   Strengthening round 3.  Three regions that were outside the one-class-level model:
+   A. how the unknown-key policy REACHES the generator (Meta binds and their merge);
+   B. several GENERATIONS of a loader for the same class (one per root that nests it, one
+      alone), the class's init-field table being an input the generations share;
+   C. the CatchAll write-back of the dumper composed with every other dump-side setting.
+   ====================================================================================== *)
+
+(* ---- A. configuration ------------------------------------------------------------------
+   bases_meta.py BaseJSONWizardMeta.bind_to, bases.py ABCOrAndMeta.__and__,
+   utils/type_conv.py as_enum.  A Meta class is seen as the set of settings written in its
+   own __dict__ (inner `class _(JSONWizard.Meta)`, LoadMeta( **kwargs), DumpMeta( **kwargs)):
+   `md_action` = v1_on_unknown_key, `md_raise` = raise_on_unknown_json_key, each absent or a
+   Python value as the user spelled it. *)
+Inductive pyv := PvNone | PvBool (b : bool) | PvInt (n : N) | PvStr (s : pstr) | PvAction (p : v1policy).
+
+(* v1/enums.py KeyAction: member names *)
+Definition action_names : list (pstr * v1policy) :=
+  [(S "IGNORE", PIgnore); (S "RAISE", PRaise); (S "WARN", PWarn)].
+
+(* as_enum(o, KeyAction): a member is returned as is; None stays None; '' gives None; another
+   str is upper-cased, spaces -> '_', and looked up BY NAME; a failed lookup (also: any
+   non-str such as 1 or True) is a ParseError (None here) *)
+Definition as_action (v : pyv) : option pyv :=
+  match v with
+  | PvAction p => Some (PvAction p)
+  | PvNone => Some PvNone
+  | PvStr [] => Some PvNone
+  | PvStr s => match assoc (replace_char c_sp c_us (upper s)) action_names with
+               | Some p => Some (PvAction p)
+               | None => None
+               end
+  | PvBool _ => None
+  | PvInt _ => None
+  end.
+
+Record metadict := { md_action : option pyv; md_raise : option pyv }.
+
+(* attribute read on a Meta class: an absent key falls back to the AbstractMeta default *)
+Definition md_get_action (m : metadict) : pyv := match md_action m with Some v => v | None => PvNone end.
+Definition md_get_raise (m : metadict) : pyv := match md_raise m with Some v => v | None => PvBool false end.
+
+(* `_META[cls] &= new`: every key of new.__dict__ overwrites, the others stay *)
+Definition md_merge (old new : metadict) : metadict :=
+  {| md_action := match md_action new with Some v => Some v | None => md_action old end;
+     md_raise := match md_raise new with Some v => Some v | None => md_raise old end |}.
+
+Inductive bindres := BOk (store : option metadict) | BParseError.
+
+(* bind_to(dataclass) with is_default=True: v1_on_unknown_key, when not None, is normalised
+   ON THE NEW Meta (written back into its __dict__) BEFORE the Meta is saved; the first Meta
+   of a class is stored itself, a later one is merged into the stored one *)
+Definition bind_to (store : option metadict) (new : metadict) : bindres :=
+  let save n := BOk (Some (match store with None => n | Some old => md_merge old n end)) in
+  match md_get_action new with
+  | PvNone => save new
+  | v => match as_action v with
+         | None => BParseError
+         | Some v' => save {| md_action := Some v'; md_raise := md_raise new |}
+         end
+  end.
+
+Fixpoint bind_all (store : option metadict) (bs : list metadict) : bindres :=
+  match bs with
+  | [] => BOk store
+  | b :: r => match bind_to store b with BOk s => bind_all s r | BParseError => BParseError end
+  end.
+
+(* what the generators read from get_meta(cls) *)
+Definition stored_action (store : option metadict) : pyv :=
+  match store with Some m => md_get_action m | None => PvNone end.
+Definition stored_raise (store : option metadict) : pyv :=
+  match store with Some m => md_get_raise m | None => PvBool false end.
+
+(* v1 generator: `on_unknown_key is KeyAction.RAISE`, `is KeyAction.WARN` — identity with the
+   enum member; anything else (None, IGNORE, and a raw str if one were ever stored) is ignore *)
+Definition v1_policy_of (v : pyv) : v1policy :=
+  match v with PvAction PRaise => PRaise | PvAction PWarn => PWarn | _ => PIgnore end.
+
+(* default engine generator: `if meta.raise_on_unknown_json_key:` — truthiness *)
+Definition py_truthy (v : pyv) : bool :=
+  match v with
+  | PvNone => false | PvBool b => b | PvInt n => negb (N.eqb n 0)
+  | PvStr s => match s with [] => false | _ => true end
+  | PvAction _ => true
+  end.
+
+Definition is_normal_action (v : pyv) : bool :=
+  match v with PvNone => true | PvAction _ => true | _ => false end.
+
+(* specification: the LAST explicitly written value of a setting over the bind sequence *)
+Definition last_explicit (get : metadict -> option pyv) (bs : list metadict) (init : option pyv) : option pyv :=
+  fold_left (fun acc b => match get b with Some v => Some v | None => acc end) bs init.
+
+Definition norm_action (v : pyv) : pyv := match as_action v with Some v' => v' | None => PvNone end.
+
+Definition spec_policy (bs : list metadict) : v1policy :=
+  match last_explicit md_action bs None with Some v => v1_policy_of (norm_action v) | None => PIgnore end.
+Definition spec_raise_flag (bs : list metadict) : bool :=
+  match last_explicit md_raise bs None with Some v => py_truthy v | None => false end.
+
+(* two Metas that differ only in spelling *)
+Definition md_equiv (a b : metadict) : Prop :=
+  option_map as_action (md_action a) = option_map as_action (md_action b) /\
+  option_map py_truthy (md_raise a) = option_map py_truthy (md_raise b).
+
+Definition v1_with_policy (c : v1cls) (p : v1policy) : v1cls :=
+  {| d_name := d_name c; d_fields := d_fields c; d_catch := d_catch c; d_tag := d_tag c; d_policy := p |}.
+Definition v0_with_raise (c : v0cls) (b : bool) : v0cls :=
+  {| c_name := c_name c; c_fields := c_fields c; c_catch := c_catch c; c_tag := c_tag c; c_raise := b |}.
+
+(* the class as the generator sees it after the binds (None: a bind failed with ParseError) *)
+Definition v1_configured (c : v1cls) (bs : list metadict) : option v1cls :=
+  match bind_all None bs with
+  | BOk st => Some (v1_with_policy c (v1_policy_of (stored_action st)))
+  | BParseError => None
+  end.
+Definition v0_configured (c : v0cls) (bs : list metadict) : option v0cls :=
+  match bind_all None bs with
+  | BOk st => Some (v0_with_raise c (py_truthy (stored_raise st)))
+  | BParseError => None
+  end.
+
+(* a nested class without a Meta of its own under a recursive root: `meta | config` takes the
+   root's settings, re-bound with is_default=False (nothing stored) *)
+Definition cascade (own root : option metadict) : option metadict :=
+  match own, root with
+  | None, r => r
+  | Some o, None => Some o
+  | Some o, Some r => Some (md_merge r o)      (* __or__: the nested class's own explicit keys win *)
+  end.
+
+(* ---- B. generations ---------------------------------------------------------------------
+   v1/loaders.py load_func_for_dataclass.  `s_init`: the init fields of the dataclass in
+   declaration order, INCLUDING the CatchAll field (`if_default` = name in field_to_default:
+   default or default_factory).  `s_catch`: the CATCH_ALL marker of the alias table
+   (class_helper.py: name, '?' iff `f.default is not MISSING` — a default_factory gives no
+   '?').  A generation is handed the table `tbl` = dataclass_init_fields(cls) (a list built
+   for this call) and derives the names from it; it deletes the CatchAll field from ITS list
+   (`del cls_init_fields[catch_all_idx]`).  The final call is
+   `cls( *positional, **init_kwargs)`: required fields positionally in field order, the
+   CatchAll variable (marker without '?') inserted at `catch_all_idx`. *)
+Record ifield := { if_name : pstr; if_keys : list pstr; if_default : bool }.
+
+Record v1src := {
+  s_name : pstr;
+  s_init : list ifield;
+  s_catch : option (pstr * bool);
+  s_tag : option pstr
+}.
+
+Fixpoint index_of (x : pstr) (l : list pstr) : option nat :=
+  match l with
+  | [] => None
+  | y :: r => if pstr_eqb x y then Some O else option_map Datatypes.S (index_of x r)
+  end.
+
+Fixpoint remove_nth {A} (n : nat) (l : list A) : list A :=
+  match n, l with
+  | _, [] => []
+  | O, _ :: r => r
+  | Datatypes.S n', y :: r => y :: remove_nth n' r
+  end.
+
+(* list.insert(n, x): appends when n >= len *)
+Fixpoint insert_at {A} (n : nat) (x : A) (l : list A) : list A :=
+  match n, l with
+  | O, _ => x :: l
+  | Datatypes.S _, [] => [x]
+  | Datatypes.S n', y :: r => y :: insert_at n' x r
+  end.
+
+Record v1gen := {
+  g_cls : v1cls;          (* the field loop, alias set, counter and unknown-key branch: the existing model *)
+  g_pos : list pstr       (* variables passed positionally to cls(...), in order (variable = field name) *)
+}.
+
+Inductive genres := GenOk (g : v1gen) | GenValueError.
+
+Definition v1_generate (src : v1src) (tbl : list ifield) (pol : v1policy) : genres :=
+  let names := map if_name tbl in
+  let tag := match s_tag src with Some t => if mem_str t names then None else Some t | None => None end in
+  let mk fields catch pos :=
+    GenOk {| g_cls := {| d_name := s_name src;
+                         d_fields := map (fun f => (if_name f, if_keys f)) fields;
+                         d_catch := catch; d_tag := tag; d_policy := pol |};
+             g_pos := pos |} in
+  let required fields := map if_name (filter (fun f => negb (if_default f)) fields) in
+  match s_catch src with
+  | None => mk tbl None (required tbl)
+  | Some (cf, q) =>
+      match index_of cf names with
+      | None => GenValueError                        (* tuple.index(x): x not in tuple *)
+      | Some idx =>
+          let fields := remove_nth idx tbl in
+          mk fields (Some (cf, q)) (if q then required fields else insert_at idx cf (required fields))
+      end
+  end.
+
+(* per class: the table every generation is handed, how many generations ran, the loader
+   compiled for each root (root = index; one of them is the class used alone) *)
+Record gstate := {
+  gs_tbl : list ifield;
+  gs_gens : nat;
+  gs_loaders : list (nat * v1gen)
+}.
+
+Definition g_init (src : v1src) : gstate := {| gs_tbl := s_init src; gs_gens := O; gs_loaders := [] |}.
+
+Fixpoint nassoc {A} (n : nat) (l : list (nat * A)) : option A :=
+  match l with [] => None | (m, x) :: r => if Nat.eqb n m then Some x else nassoc n r end.
+
+(* one generation: it works on its own list, so the table it was handed is what the next
+   generation is handed *)
+Definition gen_step (src : v1src) (pol : nat -> v1policy) (st : gstate) (r : nat) : gstate * genres :=
+  let g := v1_generate src (gs_tbl st) (pol r) in
+  ({| gs_tbl := gs_tbl st; gs_gens := Datatypes.S (gs_gens st);
+      gs_loaders := match g with GenOk x => (r, x) :: gs_loaders st | GenValueError => gs_loaders st end |}, g).
+
+Section Generations.
+Variables raw V : Type.
+Variable conv : pstr -> raw -> cres V.
+
+Inductive gop := OpGen (r : nat) | OpLoad (r : nat) (o : doc raw).
+
+Inductive gout :=
+  | GOut (o : outcome raw V)
+  | GTypeError (param : pstr)      (* cls() got multiple values for argument <param> *)
+  | GValueError.                   (* the generation failed *)
+
+Fixpoint param_of (k : pstr) (binding : list (pstr * pstr)) : option pstr :=
+  match binding with
+  | [] => None
+  | (p, v) :: r => if pstr_eqb k v then Some p else param_of k r
+  end.
+
+Fixpoint first_dup (l : list pstr) : option pstr :=
+  match l with [] => None | x :: r => if mem_str x r then Some x else first_dup r end.
+
+(* cls( *g_pos, **init_kwargs): the j-th positional value lands in the j-th init parameter *)
+Definition call_ctor (src : v1src) (g : v1gen) (kw : list (pstr * kwval raw V)) : gout :=
+  let binding := combine (map if_name (s_init src)) (g_pos g) in
+  let kw' := map (fun kv => (match param_of (fst kv) binding with Some p => p | None => fst kv end, snd kv)) kw in
+  match first_dup (keys kw') with
+  | Some p => GTypeError p
+  | None => GOut (OKCall kw')
+  end.
+
+Definition v1g_load (src : v1src) (g : v1gen) (o : doc raw) : gout :=
+  match v1_load conv (g_cls g) o with
+  | OKCall kw => call_ctor src g kw
+  | Fail e => GOut (Fail e)
+  end.
+
+Definition genres_load (src : v1src) (g : genres) (o : doc raw) : gout :=
+  match g with GenOk x => v1g_load src x o | GenValueError => GValueError end.
+
+(* a history of generations and loads; a load through a root that has no loader yet generates it *)
+Fixpoint g_run (src : v1src) (pol : nat -> v1policy) (st : gstate) (ops : list gop) : list gout :=
+  match ops with
+  | [] => []
+  | OpGen r :: rest => g_run src pol (fst (gen_step src pol st r)) rest
+  | OpLoad r o :: rest =>
+      match nassoc r (gs_loaders st) with
+      | Some g => v1g_load src g o :: g_run src pol st rest
+      | None => let '(st', g) := gen_step src pol st r in genres_load src g o :: g_run src pol st' rest
+      end
+  end.
+
+(* reference: every load is served by a loader generated from the PRISTINE class *)
+Fixpoint g_ref (src : v1src) (pol : nat -> v1policy) (ops : list gop) : list gout :=
+  match ops with
+  | [] => []
+  | OpGen _ :: rest => g_ref src pol rest
+  | OpLoad r o :: rest => genres_load src (v1_generate src (s_init src) (pol r)) o :: g_ref src pol rest
+  end.
+
+(* the constructor receives every value under the name of its own field *)
+Definition pos_ok (src : v1src) (g : v1gen) : bool :=
+  forallb (fun pv => pstr_eqb (fst pv) (snd pv)) (combine (map if_name (s_init src)) (g_pos g)).
+
+(* specification of one load: by-name constructor call, no counter *)
+Definition v1g_spec (src : v1src) (g : v1gen) (o : doc raw) : gout := GOut (v1_spec conv (g_cls g) o).
+
+End Generations.
+
+Arguments OpGen {raw} r.
+Arguments OpLoad {raw} r o.
+Arguments GOut {raw V} o.
+Arguments GTypeError {raw V} param.
+Arguments GValueError {raw V}.
+
+(* ---- C. dump: the CatchAll write-back composed with the skip rules ------------------------
+   dumpers.py dump_func_for_dataclass, per field i (name f):
+     _skip_i = f in exclude                       (False when exclude is None)
+     if skip_defaults and f has a default:        (argument, else Meta.skip_defaults or skip_defaults_if set)
+         _skip_i = _skip_i or (<Meta.skip_defaults_if>(o.f) if set else o.f == _default_i)
+     ordinary field:  if not (_skip_i or <own SkipIf, else Meta.skip_if>(o.f)): result.append((key, dump(o.f)))
+     CatchAll field:  if o.f != _default_i and not _skip_i:   (with a default)
+                      if not _skip_i:                         (without)
+                          for k, v in o.f.items(): result.append((k, dump(v)))
+   then result[tag_key] = tag.  `ctest c f` is the truth of condition c on the CURRENT value
+   of field f (None: the comparison raises TypeError), `is_dflt f` is `o.f == _default_f`:
+   the theorems hold for every such function, hence for every condition and every value. *)
+Section DumpCfg.
+Variables raw V cond : Type.
+Variable ctest : cond -> pstr -> option bool.
+Variable is_dflt : pstr -> bool.
+
+Record dumpcfg := {
+  dc_fields : list pstr;
+  dc_key : pstr -> pstr;
+  dc_catch : option pstr;
+  dc_has_default : pstr -> bool;
+  dc_skip_if : option cond;
+  dc_skip_defaults_if : option cond;
+  dc_field_skip : pstr -> option cond;
+  dc_tag : option (pstr * pstr)
+}.
+
+Record dumpargs := {
+  da_exclude : option (list pstr);
+  da_skip_defaults : bool
+}.
+
+Inductive xval := XField (v : kwval raw V) | XRaw (r : raw) | XTag (t : pstr).
+
+Definition is_xraw (p : pstr * xval) : bool := match snd p with XRaw _ => true | _ => false end.
+
+(* _skip_i after the exclude and skip_defaults phases (None: TypeError) *)
+Definition skip_flag (cfg : dumpcfg) (args : dumpargs) (f : pstr) : option bool :=
+  let ex := match da_exclude args with None => false | Some E => mem_str f E end in
+  if da_skip_defaults args && dc_has_default cfg f then
+    if ex then Some true
+    else match dc_skip_defaults_if cfg with Some c => ctest c f | None => Some (is_dflt f) end
+  else Some ex.
+
+Definition is_catch (cfg : dumpcfg) (f : pstr) : bool :=
+  match dc_catch cfg with Some cf => pstr_eqb f cf | None => false end.
+
+(* the pairs appended for one field (None: the dump raises) *)
+Definition seg (cfg : dumpcfg) (args : dumpargs) (inst : list (pstr * kwval raw V)) (f : pstr)
+  : option (list (pstr * xval)) :=
+  match skip_flag cfg args f with
+  | None => None
+  | Some s =>
+      if is_catch cfg f then
+        if (if dc_has_default cfg f then negb (is_dflt f) else true) && negb s then
+          match assoc f inst with
+          | Some (KCatch items) => Some (map (fun kv => (fst kv, XRaw (snd kv))) items)
+          | _ => None                                   (* `.items()` on a non-dict *)
+          end
+        else Some []
+      else
+        if s then Some []
+        else match assoc f inst with
+             | None => None
+             | Some v =>
+                 match (match dc_field_skip cfg f with Some c => Some c | None => dc_skip_if cfg end) with
+                 | None => Some [(dc_key cfg f, XField v)]
+                 | Some c => match ctest c f with
+                             | None => None
+                             | Some true => Some []
+                             | Some false => Some [(dc_key cfg f, XField v)]
+                             end
+                 end
+             end
+  end.
+
+Fixpoint segs (cfg : dumpcfg) (args : dumpargs) (inst : list (pstr * kwval raw V)) (fs : list pstr)
+  : option (list (pstr * xval)) :=
+  match fs with
+  | [] => Some []
+  | f :: r => match seg cfg args inst f, segs cfg args inst r with
+              | Some a, Some b => Some (a ++ b)
+              | _, _ => None
+              end
+  end.
+
+Definition dump_cfg (cfg : dumpcfg) (args : dumpargs) (inst : list (pstr * kwval raw V))
+  : option (list (pstr * xval)) :=
+  match segs cfg args inst (dc_fields cfg) with
+  | Some l => Some (l ++ match dc_tag cfg with Some (tk, t) => [(tk, XTag t)] | None => [] end)
+  | None => None
+  end.
+
+(* reference: is the CatchAll FIELD selected by exclude / the skip-defaults rule (C11's rules
+   for a defaulted field)?  Meta.skip_if and a SkipIf on the field do not occur. *)
+Definition catch_field_skipped (cfg : dumpcfg) (args : dumpargs) (cf : pstr) : bool :=
+  (match da_exclude args with None => false | Some E => mem_str cf E end)
+  || (dc_has_default cfg cf &&
+      (is_dflt cf ||
+       (da_skip_defaults args &&
+        match dc_skip_defaults_if cfg with
+        | Some c => match ctest c cf with Some b => b | None => false end
+        | None => false
+        end))).
+
+End DumpCfg.
+
+Arguments XField {raw V} v.
+Arguments XRaw {raw V} r.
+Arguments XTag {raw V} t.
+
+(* ---- B'. the classes for which the positional call is by-name correct ----------------------
+   dataclass order (required fields before defaulted ones) and a CatchAll field whose '?' flag
+   agrees with `name in field_to_default` — i.e. NOT a CatchAll field with a default_factory
+   (no '?' although it has a default: finding F91). *)
+Fixpoint req_then_opt (l : list ifield) : bool :=
+  match l with
+  | [] => true
+  | f :: r => if if_default f then forallb if_default r else req_then_opt r
+  end.
+
+Definition src_regular (src : v1src) : bool :=
+  req_then_opt (s_init src) &&
+  match s_catch src with
+  | None => true
+  | Some (cf, q) =>
+      forallb (fun f => if pstr_eqb (if_name f) cf then Bool.eqb (if_default f) q else true) (s_init src)
+  end.
+
+(* ---- B''. default engine: the loaders generated for ONE class under several roots share the
+   class's json_to_field dict (the cache) and differ in the raise flag only (the root's Meta,
+   applied recursively): `rz r` is the flag of root r; the cache is threaded through all loads *)
+Section MultiRoot.
+Variables raw V : Type.
+Variable conv : pstr -> raw -> cres V.
+
+Fixpoint v0_multi_run (c : v0cls) (rz : nat -> bool) (st : cache) (ops : list (nat * doc raw)) : list (outcome raw V) :=
+  match ops with
+  | [] => []
+  | (r, d) :: rest => let '(st', o) := v0_load conv (v0_with_raise c (rz r)) st d in o :: v0_multi_run c rz st' rest
+  end.
+
+(* no load under an ignore-policy generation precedes a load under a raise-policy generation *)
+Fixpoint strict_then_lax (rz : nat -> bool) (ops : list (nat * doc raw)) : bool :=
+  match ops with
+  | [] => true
+  | (r, _) :: rest => if rz r then strict_then_lax rz rest else forallb (fun ro => negb (rz (fst ro))) rest
+  end.
+
+End MultiRoot.
